@@ -68,12 +68,7 @@ func ruleC15(w *World, r *Report) {
 		if !r.BrokenIf(msg == nil, "UpdateClient: msg parameter not identified") {
 			chain, signer := FieldT(msg, "ChainName").String(), FieldT(msg, "Signer").String()
 			guard := func(f Fact) bool {
-				t := f.L
-				if f.Op != "true" || t.Op != "call" || !strings.HasSuffix(t.Name, ".AuthRelayer") {
-					return false
-				}
-				n := len(t.Args)
-				return n >= 3 && t.Args[n-2].String() == chain && t.Args[n-1].String() == signer
+				return f.Op == "true" && k.isRelayerMembership(f.L, chain, signer)
 			}
 			ups := callsNamed(fi, "UpdateClient")
 			if len(ups) == 0 {
@@ -102,6 +97,11 @@ func ruleC15(w *World, r *Report) {
 				continue
 			}
 			n++
+			// "return slices.Contains(k.GetRelayers(ctx, chainName), relayer)"
+			if k.isRelayerMembership(fi.T.Of(v), chain, relayer) {
+				r.OK("C15.relayer/AuthRelayer", "GUARD-DOM", fn, fi.InstrPos(rt.Instr), "returns membership of the account in the registered relayers of that chain")
+				continue
+			}
 			ok := fi.HasFact(rt.Instr.Block(), func(f Fact) bool {
 				if f.Op != "==" {
 					return false
@@ -345,4 +345,33 @@ func (k *K) signerOptionRule(id string) {
 		k.r.Check(got == want[n], id+"/"+n, "PROTO-OPT", n, where[n], fmt.Sprintf("cosmos.msg.v1.signer = %q, the field the handler compares", got),
 			fmt.Sprintf("cosmos.msg.v1.signer of %s is %q but the handler authorises by field %q: the checked account is not the one whose signature is verified", n, got, want[n]))
 	}
+}
+
+// isRelayerMembership recognises "account is a registered relayer of chain":
+// AuthRelayer(ctx, chain, account), or (when AuthRelayer is a one-liner and therefore
+// inlined) slices.Contains(<relayer list of chain>, account).
+func (k *K) isRelayerMembership(t *Term, chain, account string) bool {
+	if t == nil || t.Op != "call" {
+		return false
+	}
+	n := len(t.Args)
+	if strings.HasSuffix(t.Name, ".AuthRelayer") {
+		return n >= 3 && t.Args[n-2].String() == chain && t.Args[n-1].String() == account
+	}
+	base := t.Name
+	if i := strings.Index(base, "["); i > 0 {
+		base = base[:i] // generic instantiation: slices.Contains[[]string string]
+	}
+	if (base == "slices.Contains" || strings.HasSuffix(base, "/slices.Contains")) && n == 2 && t.Args[1].String() == account {
+		return t.Args[0].Mentions(func(x *Term) bool {
+			if x.Op == "call" && strings.HasSuffix(x.Name, ".GetRelayers") && len(x.Args) == 3 && x.Args[2].String() == chain {
+				return true
+			}
+			if x.Op == "invoke" && x.Name == "Get" && len(x.Args) == 2 && x.Args[1].String() == chain {
+				return normalize(k.w.storePrefix(x.Args[0], 0)).Class() == "relayers"
+			}
+			return false
+		})
+	}
+	return false
 }
